@@ -2,7 +2,7 @@
 EXTENDS ScratchDB, Json, TLCExt
 K3 == {"a", "b", "c"}
 K2 == {"a", "b"}
-V2 == {"x", "y"}
+V2 == {"x", ""}       \* the empty byte string is a value like any other
 BothExits == {"Exception", "BaseException"}
 View == <<wrapped, cache, latest, open, dodel>>
 Bounded(n) == Init /\ [][TLCGet("level") < n /\ Next]_vars
